@@ -11,16 +11,33 @@ PairsOf(seq) == {seq[i] : i \in DOMAIN seq}
 NamesOf(L) == {p[1] : p \in L}
 Has(L, n) == n \in NamesOf(L)
 Get(L, n) == IF Has(L, n) THEN (CHOOSE p \in L : p[1] = n)[2] ELSE <<>>
+Fld(r, f, default) == IF f \in DOMAIN r THEN r[f] ELSE default      \* optional record field
 Set(L, n, v) == {p \in L : p[1] # n} \cup {<<n, v>>}
 Del(L, n) == {p \in L : p[1] # n}
 \* the first error wins; its text is left open: the specification only tracks that an error is flagged
 ErrMark == <<63>>
 SetError(L) == IF Has(L, S_error) THEN L ELSE Set(Set(L, S_error, ErrMark), S_error_details, ErrMark)
 
-\* labels a record starts with: msg = body (when not empty) plus its attributes under sanitised names
-RecordLabels(r) == LET base == IF r.line = <<>> THEN {} ELSE {<<S_msg, r.line>>}
-                       attrs == {<<Sanitize(p[1]), p[2]>> : p \in PairsOf(r.attrs)}
-                   IN attrs \cup {p \in base : p[1] \notin NamesOf(attrs)}
+\* labels a record starts with (LabelSet.SetFromRecord): trace_id / span_id (hexadecimal, when not all zero), level (the
+\* severity's name, when specified), msg = body (when not empty); then its own attributes, the scope's, the resource's,
+\* each layer under sanitised names and overriding what is there.  Attribute values that are integers, doubles or
+\* booleans are labels holding their text (the case gives it: `typed`).
+HexLow(n) == IF n < 10 THEN 48 + n ELSE 87 + n
+RECURSIVE HexOfBytes(_)
+HexOfBytes(b) == IF b = <<>> THEN <<>> ELSE <<HexLow(b[1] \div 16), HexLow(b[1] % 16)>> \o HexOfBytes(Tail(b))
+NonZeroId(b) == \E i \in DOMAIN b : b[i] # 0
+SevName(n) == LET k == (n - 1) \div 4
+                  i == ((n - 1) % 4) + 1
+                  nm == CASE k = 0 -> <<84, 114, 97, 99, 101>> [] k = 1 -> <<68, 101, 98, 117, 103>> [] k = 2 -> <<73, 110, 102, 111>>
+                          [] k = 3 -> <<87, 97, 114, 110>> [] k = 4 -> <<69, 114, 114, 111, 114>> [] k = 5 -> <<70, 97, 116, 97, 108>>
+              IN IF i = 1 THEN nm ELSE Append(nm, 48 + i)
+Layer(L, pairs) == LET new == {<<Sanitize(p[1]), p[2]>> : p \in PairsOf(pairs)} IN new \cup {p \in L : p[1] \notin NamesOf(new)}
+RecordLabels(r) == LET b1 == IF NonZeroId(Fld(r, "trace", <<>>)) THEN {<<S_trace_id, HexOfBytes(r.trace)>>} ELSE {}
+                       b2 == IF NonZeroId(Fld(r, "span", <<>>)) THEN {<<S_span_id, HexOfBytes(r.span)>>} ELSE {}
+                       b3 == IF Fld(r, "sev", 0) \in 1..24 THEN {<<S_level, SevName(r.sev)>>} ELSE {}
+                       b4 == IF r.line = <<>> THEN {} ELSE {<<S_msg, r.line>>}
+                       typed == [k \in DOMAIN Fld(r, "typed", <<>>) |-> <<r.typed[k].k, r.typed[k].v>>]
+                   IN Layer(Layer(Layer(b1 \cup b2 \cup b3 \cup b4, r.attrs \o typed), Fld(r, "scope", <<>>)), Fld(r, "res", <<>>))
 
 \* ---- string matchers
 LineMatch(op, val, re, line) == CASE op = "eq"  -> Contains(line, val)
@@ -76,7 +93,6 @@ EncLogfmt(doc) == IF doc = <<>> THEN <<>>
 RECURSIVE SetAll(_, _)
 SetAll(L, doc) == IF doc = <<>> THEN L ELSE SetAll(Set(L, doc[1][1], doc[1][2]), Tail(doc))     \* later duplicate wins
 
-Fld(r, f, default) == IF f \in DOMAIN r THEN r[f] ELSE default      \* optional record field
 
 \* ---- logfmt with quoting: a value is quoted when it is empty or contains a space, a quote or an equals sign
 NeedsQuote(v) == v = <<>> \/ \E i \in DOMAIN v : v[i] \in {32, 34, 61}
